@@ -1215,4 +1215,78 @@ def scenarios(tick=0.125):
         {"name": "a1", "sched": "aux", "order": "mid", "period": 0.0, "first": "x", "frames": [
             _fr("x", preacts=[["go", [["recurred", ">=", 9]], "y"]]),
             _fr("y", enacts=[["done", ["me"]]])]}]})))
+    # S17: an original auxiliary owned by an ANCESTOR frame that the transition does not exit: the lower frame
+    # that lists it too must be refused (the auxiliary is never active under two frames)
+    out.append(("ancestor-owned-aux-refuses-lower-frame", _tagged({"tick": tick, "nvars": 1, "framers": [
+        {"name": "m0", "sched": "active", "order": "mid", "period": 0.0, "first": "left", "frames": [
+            _fr("top", auxes=["a1"], preacts=[["go", [["recurred", ">=", 6]], "fin"]]),
+            _fr("left", "top", preacts=[["go", [["recurred", ">=", 1]], "right"]]),
+            _fr("right", "top", auxes=["a1"]),
+            _fr("fin", enacts=[["rec", 919], ["bid", "stop", ["all"], None]])]},
+        {"name": "a1", "sched": "aux", "order": "mid", "period": 0.0, "first": "x", "frames": [_fr("x")]}]})))
+    # S18: two sibling frames list the same original auxiliary; timeout / repeat / go move between them (the owner
+    # is among the exits, so the entry check lets the transition through and the auxiliary restarts)
+    out.append(("shared-aux-between-near-and-far", _tagged({"tick": tick, "nvars": 1, "framers": [
+        {"name": "m0", "sched": "active", "order": "mid", "period": 0.0, "first": "f0", "frames": [
+            _fr("f0", auxes=["a1"], preacts=[["go", [["elapsed", ">=", 2 * tick]], "f1", "timeout"]]),
+            _fr("f1", auxes=["a1"], preacts=[["go", [["recurred", ">=", 2]], "f2", "repeat"]]),
+            _fr("f2", auxes=["a1"], preacts=[["go", [["recurred", ">=", 1]], "f3"]]),
+            _fr("f3", enacts=[["rec", 920], ["bid", "stop", ["all"], None]])]},
+        {"name": "a1", "sched": "aux", "order": "mid", "period": 0.0, "first": "x", "frames": [
+            _fr("x", preacts=[["go", [["recurred", ">=", 1]], "y"]]), _fr("y")]}]})))
+    # S19: a framer with a nested outline is stopped, started again and stopped again from the same active
+    # frame (exitAll twice): entries stay top-down and exits bottom-up the second time as well
+    out.append(("stop-start-stop-nested-outline", _tagged({"tick": tick, "nvars": 1, "framers": [
+        {"name": "m0", "sched": "active", "order": "front", "period": 0.0, "first": "leaf", "frames": [
+            _fr("top", auxes=["a1"]), _fr("mid", "top"), _fr("leaf", "mid")]},
+        {"name": "a1", "sched": "aux", "order": "mid", "period": 0.0, "first": "y", "frames": [
+            _fr("x"), _fr("y", "x")]},
+        {"name": "m1", "sched": "active", "order": "back", "period": 0.0, "first": "c0", "frames": [
+            _fr("c0", preacts=[["go", [["recurred", ">=", 1]], "c1"]]),
+            _fr("c1", enacts=[["rec", 921], ["bid", "stop", ["m0"], None]], preacts=[["go", [["recurred", ">=", 1]], "c2"]]),
+            _fr("c2", enacts=[["rec", 922], ["bid", "start", ["m0"], None]], preacts=[["go", [["recurred", ">=", 2]], "c3"]]),
+            _fr("c3", enacts=[["rec", 923], ["bid", "stop", ["m0"], None]], preacts=[["go", [["recurred", ">=", 1]], "c4"]]),
+            _fr("c4", enacts=[["rec", 924], ["bid", "start", ["m0"], None]], preacts=[["go", [["recurred", ">=", 2]], "c5"]]),
+            _fr("c5", enacts=[["rec", 925], ["bid", "stop", ["all"], None]])]}]})))
+    # S20: ready succeeds, the first-frame conditions flip, ready again must demote to stopped (slave by fiat,
+    # scheduled framer by bid), then start is refused
+    out.append(("ready-twice-with-flipped-guard", _tagged({"tick": tick, "nvars": 2, "framers": [
+        {"name": "m0", "sched": "active", "order": "front", "period": 0.0, "first": "c0", "frames": [
+            _fr("c0", enacts=[["put", 0, 1], ["fiat", "ready", "s1"], ["rec", 926], ["bid", "ready", ["m1"], None]],
+                preacts=[["go", [["recurred", ">=", 1]], "c1"]]),
+            _fr("c1", enacts=[["put", 0, 0], ["fiat", "ready", "s1"], ["rec", 927], ["bid", "ready", ["m1"], None]],
+                preacts=[["go", [["recurred", ">=", 1]], "c2"]]),
+            _fr("c2", enacts=[["fiat", "start", "s1"], ["rec", 928], ["bid", "start", ["m1"], None]],
+                preacts=[["go", [["recurred", ">=", 2]], "c3"]]),
+            _fr("c3", enacts=[["rec", 929], ["bid", "stop", ["all"], None]])]},
+        {"name": "s1", "sched": "slave", "order": "mid", "period": 0.0, "first": "x", "frames": [
+            _fr("x", beacts=[["var", 0, ">=", 1]])]},
+        {"name": "m1", "sched": "inactive", "order": "back", "period": 0.0, "first": "x", "frames": [
+            _fr("x", beacts=[["var", 0, ">=", 1]])]}]})))
+    # S21: forced re-entry (go me, go <ancestor in the outline>) while the target's own let guard has become false
+    out.append(("forced-reentry-with-false-guard", _tagged({"tick": tick, "nvars": 2, "framers": [
+        {"name": "m0", "sched": "active", "order": "mid", "period": 0.0, "first": "leaf", "frames": [
+            _fr("top", beacts=[["var", 0, "<=", 0]], preacts=[["go", [["recurred", ">=", 4]], "top"]]),
+            _fr("leaf", "top", beacts=[["var", 1, "<=", 0]], enacts=[["put", 1, 1]],
+                preacts=[["go", [["recurred", ">=", 2]], "leaf"]], reacts=[["inc", 0, 1]]),
+            ]}]})))
+    # S22: conditional auxiliary running on the middle of a three deep outline; a transition from the top to a
+    # frame BELOW the cut is refused (empty enters) and the outline stays truncated
+    out.append(("transition-below-the-cut-while-suspended", _tagged({"tick": tick, "nvars": 1, "framers": [
+        {"name": "m0", "sched": "active", "order": "mid", "period": 0.0, "first": "leaf", "frames": [
+            _fr("top", preacts=[["go", [["recurred", ">=", 3]], "leaf2"], ["go", [["recurred", ">=", 7]], "fin"]]),
+            _fr("mid", "top", preacts=[["aux", [["var", 0, ">=", 0]], "a1"]]),
+            _fr("leaf", "mid"), _fr("leaf2", "mid"),
+            _fr("fin", enacts=[["rec", 930], ["bid", "stop", ["all"], None]])]},
+        {"name": "a1", "sched": "aux", "order": "mid", "period": 0.0, "first": "x", "frames": [_fr("x")]}]})))
+    # S23: a conditional auxiliary whose first outline is two frames deep completes and is triggered again,
+    # several times: every run enters top-down and exits bottom-up
+    out.append(("nested-condaux-runs-repeatedly", _tagged({"tick": tick, "nvars": 1, "framers": [
+        {"name": "m0", "sched": "active", "order": "mid", "period": 0.0, "first": "g", "frames": [
+            _fr("f0", preacts=[["aux", [["var", 0, ">=", 0]], "a1"], ["go", [["recurred", ">=", 12]], "fin"]]),
+            _fr("g", "f0"),
+            _fr("fin", enacts=[["rec", 931], ["bid", "stop", ["all"], None]])]},
+        {"name": "a1", "sched": "aux", "order": "mid", "period": 0.0, "first": "y", "frames": [
+            _fr("x"), _fr("y", "x", preacts=[["go", [["recurred", ">=", 1]], "z"]]),
+            _fr("z", "x", enacts=[["done", ["me"]]])]}]})))
     return out
